@@ -2,5 +2,5 @@
 from props import TEXTS  # noqa: F401
 
 # commits in /repo that add verification hooks (build tag verif, add-only)
-HOOK_COMMITS = ["695f40a", "5cb0ad0", "4dffa46", "41224e4"]
+HOOK_COMMITS = ["695f40a", "5cb0ad0", "4dffa46", "41224e4", "bb046e1"]
 NOT_APPLICABLE = {}
